@@ -9,7 +9,7 @@ ASSUMPTIONS = ["PARTIAL: the attempt loop itself (retry after each failed attemp
 
 
 def run_p(seed, tier, replay=None):
-    n = 1500 if tier == "quick" else 40000
+    n = 1500 if tier == "quick" else 120000
     r = common.run_streams([("p_exec", [seed, n])])
     items = [([b, args, idx], req, impl) for (b, args, idx, req, impl) in r.cases if req.startswith("backoff ")]
     model = vlib.run_driver([q for _, q, _ in items]) if items else []
